@@ -139,6 +139,27 @@ def relayout(f, layout):
         g = np.ascontiguousarray(f)
     assert g.shape == f.shape and g.dtype == f.dtype and bool(np.all(g == f))
     return g
+
+
+def alloc_out(shape, dtype, layout):
+    """A writable array for an out= argument, prefilled with NaN (or a sentinel for integer / string
+    dtypes), in the given memory layout.  The result of an in-place evaluation must not depend on it."""
+    import numpy as np
+    dtype = np.dtype(dtype)
+    fill = 'z' if dtype.kind == 'U' else (-77 if dtype.kind in 'iu' else np.nan)
+    shape = tuple(shape)
+    if layout == 'F':
+        o = np.full(shape, fill, dtype=dtype, order='F')
+    elif layout == 'transposed':
+        o = np.full(shape[::-1], fill, dtype=dtype).transpose()
+    elif layout == 'strided':
+        o = np.full(tuple(2 * n for n in shape), fill, dtype=dtype)[tuple(slice(None, None, 2) for _ in shape)]
+    elif layout == 'negstride':
+        o = np.full(shape, fill, dtype=dtype)[tuple(slice(None, None, -1) for _ in shape)]
+    else:
+        o = np.full(shape, fill, dtype=dtype)
+    assert o.shape == shape and o.flags.writeable
+    return o
 '''
 exec(LAYOUT_SRC)
 
@@ -163,7 +184,7 @@ def measure_variants():
     return int_raises, mesh1_raises
 
 
-def run_interp(kind, schemes, cvs, dtype, vals_re, vals_im, conv, pts, mesh, use_out, layout='C'):
+def run_interp(kind, schemes, cvs, dtype, vals_re, vals_im, conv, pts, mesh, use_out, layout='C', out_layout='C'):
     """Run the implementation; returns the Coq term of type outc and a python summary."""
     from odl.discr.discr_utils import nearest_interpolator, linear_interpolator, per_axis_interpolator
     from odl.discr.grid import sparse_meshgrid
@@ -201,12 +222,7 @@ def run_interp(kind, schemes, cvs, dtype, vals_re, vals_im, conv, pts, mesh, use
             oshape = tuple(oshape[:-1]) + (oshape[-1] + 1,)
         if use_out == 'baddtype':
             odt = np.dtype('float32') if f.dtype == np.dtype('float64') else np.dtype('float64')
-        if odt.kind == 'U':
-            kw['out'] = np.full(oshape, 'z', dtype=odt)
-        elif odt.kind == 'i':
-            kw['out'] = np.full(oshape, -77, dtype=odt)
-        else:
-            kw['out'] = np.full(oshape, np.nan, dtype=odt)
+        kw['out'] = alloc_out(oshape, odt, out_layout)
     with warnings.catch_warnings():
         warnings.simplefilter('ignore')
         old = np.seterr(all='ignore')
@@ -306,12 +322,13 @@ def interp_cases(rng, tier, variants):
             if use_out == 'badshape':
                 osh = osh[:-1] + [osh[-1] + 1]
             outarg = (osh, use_out != 'baddtype')
-        out, summ = run_interp(kind, schemes, cvs, dtype, vre, vim, conv, pts, mesh, use_out, layout)
+        out_layout = rng.choice(LAYOUTS) if use_out else 'C'
+        out, summ = run_interp(kind, schemes, cvs, dtype, vre, vim, conv, pts, mesh, use_out, layout, out_layout)
         term = case_term(kind, schemes, cvs, dtype, vre, vim, conv, pts, mesh, variants, out, outarg)
         desc = {'kind': kind, 'schemes': schemes, 'cvs': cvs, 'dtype': dtype, 'values': vre, 'imag': vim,
-                'layout': layout, 'conv': conv, 'points': pts, 'mesh': mesh, 'out_arg': use_out, 'branches': branches,
+                'layout': layout, 'out_layout': out_layout, 'conv': conv, 'points': pts, 'mesh': mesh, 'out_arg': use_out, 'branches': branches,
                 'impl': summ if isinstance(summ, str) else 'values'}
-        key = (kind, tuple(schemes), str(cvs), dtype, tuple(vre), tuple(vim), conv, str(pts), str(mesh), use_out, layout)
+        key = (kind, tuple(schemes), str(cvs), dtype, tuple(vre), tuple(vim), conv, str(pts), str(mesh), use_out, layout, out_layout)
         cs.add(term, desc, key if len(set(vre)) > 1 else None)
     return cs
 
@@ -449,8 +466,8 @@ def make_space(rng, d, dtype, uniform=None):
 
 
 MODES = ['element', 'mesh-out', 'array', 'array-out', 'points', 'element-F', 'element-C']
-SAMPLE_SRC = '''
-def sample(space, f, mode):
+SAMPLE_SRC = LAYOUT_SRC + '''
+def sample(space, f, mode, out_layout='C'):
     """The values of callable f on the grid of `space`, obtained through one entry point of the
     sampling machinery: space.element (out-of-place on the mesh) or the wrapper returned by
     sampling_function called on the mesh with out=, on the point array (d, N) with/without out=,
@@ -463,7 +480,7 @@ def sample(space, f, mode):
         return np.ascontiguousarray(space.element(f, order=mode[-1]).asarray())
     func = sampling_function(f, space.domain, out_dtype=space.dtype)
     if mode == 'mesh-out':
-        out = np.full(space.shape, np.nan, dtype=space.dtype)
+        out = alloc_out(space.shape, space.dtype, out_layout)
         r = point_collocation(func, space.meshgrid, out=out)
         assert r is out
         return out
@@ -471,9 +488,9 @@ def sample(space, f, mode):
     if mode == 'array':
         return np.asarray(func(pts.T)).reshape(space.shape)
     if mode == 'array-out':
-        out = np.full(len(pts), np.nan, dtype=space.dtype)
+        out = alloc_out((len(pts),), space.dtype, out_layout)
         func(pts.T, out=out)
-        return out.reshape(space.shape)
+        return np.array(out).reshape(space.shape)
     vals = [func(p[0] if space.ndim == 1 else p) for p in pts]
     assert all(isinstance(v, (float, complex)) for v in vals)
     return np.array(vals).reshape(space.shape).astype(space.dtype)
@@ -514,11 +531,12 @@ def sampling_cases(rng, tier):
         mode = MODES[(it // len(FLAVOURS)) % len(MODES)]
         if flavour == 'ufunc' and mode.endswith('-out'):
             mode = 'array'       # recorded finding sampling-1d-ufunc-inplace-valueerror, probed separately
+        out_layout = rng.choice(LAYOUTS) if mode.endswith('-out') else 'C'
         err = None
         with warnings.catch_warnings():
             warnings.simplefilter('ignore')
             try:
-                arr = sample(sp, env['f'], mode)
+                arr = sample(sp, env['f'], mode, out_layout)
             except Exception as e:      # an exception is a failing case (empty output), not a harness crash
                 arr, err = np.zeros(0, dtype=dtype), '%s: %s' % (type(e).__name__, str(e)[:200])
         cvs = [c.tolist() for c in sp.grid.coord_vectors]
@@ -527,16 +545,17 @@ def sampling_cases(rng, tier):
                 % (C.qss(cvs), ex_re.coq(), ex_im.coq(), C.b(cplx),
                    C.qs([float(v) for v in flat.real.tolist()]),
                    C.qs([float(v) for v in flat.imag.tolist()]) if cplx else '[]'))
-        desc = {'family': 'sampling', 'flavour': flavour, 'mode': mode, 'dtype': dtype, 'space': spsrc,
+        desc = {'family': 'sampling', 'flavour': flavour, 'mode': mode, 'out_layout': out_layout, 'dtype': dtype,
+                'space': spsrc,
                 'callable': src, 'shape': list(sp.shape), 'error': err, 'd': d,
                 'scalar_expr': ex_re.src(False, 'p') + ((' + 1j * (%s)' % ex_im.src(False, 'p')) if cplx else '')}
         nontriv = len(set(flat.tolist())) > 1
-        cs.add(term, desc, (flavour, mode, dtype, spsrc, src) if nontriv else None)
+        cs.add(term, desc, (flavour, mode, out_layout, dtype, spsrc, src) if nontriv else None)
     return cs
 
 
-TENSOR_SRC = '''
-def sample_tensor(space, fs, k, mode, inplace, shaped):
+TENSOR_SRC = LAYOUT_SRC + '''
+def sample_tensor(space, fs, k, mode, inplace, shaped, out_layout='C'):
     """Values of a vector-valued callable / a list of callables and constants on the grid of
     `space`, through sampling_function(..., out_dtype=(float, (k,))): result shape (k,) + grid."""
     import numpy as np
@@ -545,7 +564,7 @@ def sample_tensor(space, fs, k, mode, inplace, shaped):
     x = space.meshgrid if mode == 'mesh' else space.points().T
     shp = (k,) + (space.shape if mode == 'mesh' else (space.size,))
     if inplace:
-        out = np.full(shp, np.nan)
+        out = alloc_out(shp, float, out_layout)
         r = point_collocation(func, x, out=out)
         assert r is out
     else:
@@ -602,13 +621,14 @@ def tensor_sampling_cases(rng, tier):
         inplace = rng.random() < 0.5
         shaped = form == 'tuple' or rng.random() < 0.5
         src = tensor_src(rng, comps, form)
+        out_layout = rng.choice(LAYOUTS) if inplace else 'C'
         env = {}
         exec(src, env)
         err = None
         with warnings.catch_warnings():
             warnings.simplefilter('ignore')
             try:
-                arr = sample_tensor(sp, env['fs'], k, mode, inplace, shaped)
+                arr = sample_tensor(sp, env['fs'], k, mode, inplace, shaped, out_layout)
             except Exception as e:
                 arr, err = None, '%s: %s' % (type(e).__name__, str(e)[:200])
         cvs = [c.tolist() for c in sp.grid.coord_vectors]
@@ -616,7 +636,8 @@ def tensor_sampling_cases(rng, tier):
             flat = np.zeros(0) if arr is None else np.asarray(arr[j]).ravel()
             term = ('{| s_cvs := %s; s_re := %s; s_im := FConst 0; s_cplx := false; s_out_re := %s; s_out_im := [] |}'
                     % (C.qss(cvs), e.coq(), C.qs([float(v) for v in flat.tolist()])))
-            desc = {'family': 'tensor', 'form': form, 'mode': mode, 'inplace': inplace, 'shaped': shaped, 'k': k,
+            desc = {'family': 'tensor', 'form': form, 'mode': mode, 'inplace': inplace, 'out_layout': out_layout,
+                    'shaped': shaped, 'k': k,
                     'component': j, 'space': spsrc, 'callable': src, 'error': err,
                     'scalar_exprs': [c.src(False, 'p') for c in comps]}
             cs.add(term, desc, (form, mode, inplace, shaped, spsrc, src, j) if len(set(flat.tolist())) > 1 else None)
@@ -644,7 +665,7 @@ def int_src(ex, xname='x'):
     return re.sub(r'(?<![\w.])(-?\d+)\.0(?![\d])', r'\1', ex.src(False, xname))
 
 
-HISTORY_SRC = '''
+HISTORY_SRC = LAYOUT_SRC + '''
 def run_history(f, steps):
     """Evaluate ONE callable f through a sequence of calls; returns the list of results (flat complex lists).
     steps: ('point', coords) direct call of f at one point | ('sample', space, mode, kwargs) sampling on a space."""
@@ -663,7 +684,7 @@ def run_history(f, steps):
                 from odl.discr.discr_utils import sampling_function, point_collocation
                 func = sampling_function(f, space.domain, out_dtype=space.dtype)
                 if mode == 'mesh-out':
-                    a = np.full(space.shape, np.nan, dtype=space.dtype)
+                    a = alloc_out(space.shape, space.dtype, 'F' if len(res) % 2 else 'strided')
                     point_collocation(func, space.meshgrid, out=a, **kw)
                 else:
                     a = np.asarray(func(space.points().T, **kw)).reshape(space.shape)
@@ -812,7 +833,7 @@ def resample_cases(rng, tier, variants):
             x = dom.element(env['f'], order=order)
             op = odl.Resampling(dom, ran, interp)
             if use_out:
-                y = ran.element(np.full(shape2, np.nan))
+                y = ran.element(np.full(shape2, np.nan), order=rng.choice([None, 'C', 'F']) if d > 1 else None)
                 try:
                     op(x, out=y)
                 except ValueError:
@@ -840,7 +861,7 @@ def resample_cases(rng, tier, variants):
         use_out2 = rng.random() < 0.3
         try:
             if use_out2:
-                o = np.full(int(np.prod(shape)), np.nan)
+                o = alloc_out((int(np.prod(shape)),), float, rng.choice(['C', 'strided', 'negstride']))
                 r = linear_deform(templ, dfield, interp=interp, out=o)
             else:
                 r = linear_deform(templ, dfield, interp=interp)
@@ -1002,16 +1023,20 @@ def probes(rng, tier):
                     mesh[0].append(mesh[0][0] + 0.125)
                 snip = REF + LAYOUT_SRC + (
                     'cvs = %r\nf = relayout(%s, %r)\nschemes = %r\nitp = make(%r, schemes, f, cvs)\npts = %r\nmesh = %r\n'
-                    % (cvs, _rand_values(rng, shape, dtype), layout, eff, kind, pts, mesh))
+                    'OUT_LAYOUT = %r\n'
+                    % (cvs, _rand_values(rng, shape, dtype), layout, eff, kind, pts, mesh, rng.choice(LAYOUTS)))
                 snip += ('expected = [ref_interp(schemes, cvs, f, p) for p in pts]\n'
                          'a = call(itp, "array", pts, %d); b = call(itp, "single", pts, %d)\n'
                          'mp = list(itertools.product(*mesh))\n'
                          'm = [complex(v) for v in np.asarray(itp(sparse_meshgrid(*[np.array(x) for x in mesh]))).ravel()]\n'
-                         'o = np.full(len(pts), np.nan, dtype=f.dtype); r = itp(np.array(pts).T, out=o)\n'
+                         'o = alloc_out((len(pts),), f.dtype, "strided"); r = itp(np.array(pts).T, out=o)\n'
+                         'mo = alloc_out(tuple(len(x) for x in mesh), f.dtype, OUT_LAYOUT)\n'
+                         'mr = itp(sparse_meshgrid(*[np.array(x) for x in mesh]), out=mo)\n'
                          'observed = a\n'
                          'ok = (close(a, expected, 1e-12) and a == b and r is o and [complex(v) for v in o] == a\n'
                          '      and close(m, [ref_interp(schemes, cvs, f, p) for p in mp], 1e-12)\n'
-                         '      and m == call(itp, "array", mp, %d))\n' % (d, d, d))
+                         '      and m == call(itp, "array", mp, %d) and mr is mo and [complex(v) for v in mo.ravel()] == m)\n'
+                         % (d, d, d))
                 _probe(out, 'textbook-%s-d%d' % (kind if kind != 'per_axis' else 'peraxis', d),
                        '%s %s (%s, %d-d, %s memory layout): closest node (right on ties) / multilinear blend / one-cell '
                        'decay outside, identical for single points, point arrays, mesh grids and out='
@@ -1064,15 +1089,16 @@ def probes(rng, tier):
         # expected values from a plain Python loop over the grid points with the scalar form of the expression
         scalar = ex_re.src(False, 'p') + ((' + 1j * (%s)' % ex_im.src(False, 'p')) if cplx else '')
         mode = MODES[(it // len(FLAVOURS)) % len(MODES)] if it >= len(FLAVOURS) else 'element'
+        out_layout = rng.choice(LAYOUTS[1:]) if mode.endswith('-out') else 'C'
         snip = ('import numpy as np, odl, warnings\nwarnings.simplefilter("ignore")\n' + SAMPLE_SRC + spsrc + src +
-                'got = sample(space, f, %r)\n' % mode +
+                'got = sample(space, f, %r, %r)\n' % (mode, out_layout) +
                 'expected = np.array([%s for p in space.points()]).reshape(space.shape).astype(space.dtype)\n'
                 'observed = got\nok = got.shape == space.shape and got.dtype == space.dtype and bool(np.all(got == expected))\n'
                 % scalar)
         _probe(out, 'sampling-1d-ufunc-inplace-valueerror' if (flavour == 'ufunc' and mode.endswith('-out'))
                else 'sampling-%s-%s-%s' % (flavour, dtype, mode),
-               'sampling a %s callable (%s, %d-d) via %s gives the callable\'s values at the grid points'
-               % (flavour, dtype, d, mode), snip)
+               'sampling a %s callable (%s, %d-d) via %s (out layout %s) gives the callable\'s values at the grid '
+               'points' % (flavour, dtype, d, mode, out_layout), snip)
 
     # ---- 5. operators built on the interpolators (elements in C and Fortran memory order)
     for _ in range(2 * reps):
@@ -1204,7 +1230,7 @@ def probes(rng, tier):
 
 def _sampling_snippet(desc):
     return ('import numpy as np, odl, warnings\nwarnings.simplefilter("ignore")\n' + SAMPLE_SRC + desc['space']
-            + desc['callable'] + 'got = sample(space, f, %r)\n' % desc['mode'] +
+            + desc['callable'] + 'got = sample(space, f, %r, %r)\n' % (desc['mode'], desc.get('out_layout', 'C')) +
             'expected = np.array([%s for p in space.points()]).reshape(space.shape).astype(space.dtype)\n'
             'observed = got\nok = got.shape == space.shape and got.dtype == space.dtype and '
             'bool(np.all(got == expected))\n' % desc['scalar_expr'])
